@@ -172,6 +172,7 @@ var ghostTableURI func(t *Table) string
 // target key (also one below the first indexed key) and every table size.
 //@ func SearchIndex.Search
 //@   property C17
+//@   requires forall(0, len(si.offsets), func(i int) bool { return forall(0, i, func(j int) bool { return si.offsets[j] < si.offsets[i] }) })
 //@   modifies nothing
 //@   ensures result2 == nil && len(si.offsets) > 0 ==> exists(0, len(si.offsets), func(j int) bool { return result0 == int64(si.offsets[j]) })
 //@   ensures result2 == nil ==> result0 <= result1
